@@ -568,6 +568,11 @@ struct CrashInfo<'a> {
     script: &'a Value,
 }
 
+/// the name of an error's VARIANT (first identifier of its Debug rendering), never its message text
+fn vname<T: std::fmt::Debug>(e: &T) -> String {
+    format!("{e:?}").chars().take_while(|c| c.is_alphanumeric() || *c == '_').collect()
+}
+
 /// Run the real recovery on `ds`, compare with the model, evaluate the oracle.
 /// Returns the matched prefix index (largest) when the oracle is satisfied.
 fn check_recovery(ctx: &mut Ctx, ds: &DiskState, cfg: &WalConfig, exp: &Expect, info: &CrashInfo) -> Option<usize> {
@@ -580,10 +585,15 @@ fn check_recovery(ctx: &mut Ctx, ds: &DiskState, cfg: &WalConfig, exp: &Expect, 
             incoherent = incoherent_keys(st, &keys_of_images(exp.prefixes));
             (fmt_image(&img), Some(img))
         },
-        Err(e) => {
-            let s = e.to_string();
-            (if s.contains("Checksum mismatch") { "err checksum".to_string() } else { format!("err other:{s}") }, None)
+        // Error canonicalisation (BUILDING.md), rule 2: `recover` reports every refusal as the one variant
+        // `SlabRouterError::WalError(String)` (open / snapshot load / replay), the model has ONE refusal
+        // (`err checksum`) and the oracle below treats every refusal alike (`recover_error`): the compared
+        // token is decided by the VARIANT; what the message says is a coverage statistic only.
+        Err(e @ tensor_store::SlabRouterError::WalError(_)) => {
+            ctx.rep.hit(if e.to_string().to_lowercase().contains("checksum") { "recover.refused.checksum" } else { "recover.refused.other_wording" });
+            ("err checksum".to_string(), None)
         },
+        Err(e) => (format!("err other:{}", vname(e)), None),
     };
     drop(r);
     ctx.bind_file(&ds.wal);
@@ -858,10 +868,20 @@ fn run_chain(ctx: &mut Ctx, r: &mut Rng, cc: &ChainCfg, epochs: &[Vec<Op>]) {
                         (if res.is_ok() { "ok" } else { "err" }, format!("put {} {} {}", hex(k.as_bytes()), hex(&c.0), ob_str(&c.1)))
                     } else {
                         let res = store.delete_durable(k);
+                        // `TensorStore::delete_durable` maps EVERY router error to `TensorStoreError::NotFound(text)`
+                        // (lib.rs), so "the log refused the record" and "logged, but no such key" differ only in
+                        // the text, and the spec below needs to know which (a refused delete changes nothing).
+                        // Rule 3: without the size rule the log cannot refuse, so the variant decides; with it,
+                        // the inner text is read by the keywords the repo's own tests pin (slab_router.rs tests
+                        // assert `msg.contains("WAL")` on the Display of `SlabRouterError::WalError`; `NotFound`
+                        // displays as "not found: <key>", keys here are lower-case), and a message with neither
+                        // keyword degrades to `refused`, which agrees with either refusal of the model.
                         let word = match &res {
                             Ok(()) => "ok",
-                            Err(e) if cc.no_rotate && e.to_string().contains("Failed to log") => "err",
-                            Err(_) => "notfound",
+                            Err(_) if !cc.no_rotate => "notfound",
+                            Err(tensor_store::TensorStoreError::NotFound(m)) if m.contains("WAL") => "err",
+                            Err(tensor_store::TensorStoreError::NotFound(m)) if m.contains("not found") => "notfound",
+                            Err(_) => "refused",
                         };
                         (word, format!("del {}", hex(k.as_bytes())))
                     };
@@ -869,7 +889,7 @@ fn run_chain(ctx: &mut Ctx, r: &mut Rng, cc: &ChainCfg, epochs: &[Vec<Op>]) {
                         Some(sz) => format!("lim{} {} {} {}", line, cc.max_size.unwrap_or(0), cur_len, sz),
                         None => line,
                     };
-                    let applied = imp_res != "err";
+                    let applied = imp_res != "err" && imp_res != "refused";
                     if !applied {
                         ctx.rep.hit("op.refused_by_size_limit");
                         if let Op::Put(_, d) = op {
@@ -880,6 +900,12 @@ fn run_chain(ctx: &mut Ctx, r: &mut Rng, cc: &ChainCfg, epochs: &[Vec<Op>]) {
                         }
                     }
                     let model = ctx.m.ask(&line);
+                    // a refusal whose wording is not recognised is compared as `refused` against either model refusal
+                    let model = if imp_res == "refused" {
+                        if let Some(rest) = model.strip_prefix("err").filter(|r| r.is_empty() || r.starts_with(' ')) { format!("refused{rest}") }
+                        else if let Some(rest) = model.strip_prefix("notfound").filter(|r| r.is_empty() || r.starts_with(' ')) { format!("refused{rest}") }
+                        else { model }
+                    } else { model };
                     if let Some(t) = model.split("total=").nth(1).and_then(|x| x.split_whitespace().next()).and_then(|x| x.parse().ok()) {
                         model_total = t;
                     }
@@ -1412,13 +1438,9 @@ fn stream_frames(ctx: &mut Ctx, r: &mut Rng, n: usize) {
         let kept = std::fs::metadata(&p).unwrap().len();
         let imp = match w.replay() {
             Ok(es) => format!("{} ok", es.len()),
-            Err(e) => {
-                if e.to_string().contains("Checksum mismatch") {
-                    "bad_crc".to_string()
-                } else {
-                    format!("err {e}")
-                }
-            },
+            // by variant (rule 1)
+            Err(tensor_store::wal::WalError::ChecksumMismatch { .. }) => "bad_crc".to_string(),
+            Err(e) => format!("err:{}", vname(&e)),
         };
         drop(w);
         ctx.bind_file(&bytes);
